@@ -76,7 +76,7 @@ Inductive event : Type :=
 (** TermList::add_term   (TermList.h:48-59)
       it = data.find(term);
       if(it == data.end()) data.insert(term);
-      else { sum = *it; sum += term; data.erase(*it);
+      else { sum = *it; sum += term; data.erase( *it);
              if(!is_negligible(sum, data.size() + 1)) data.insert(sum); }                              *)
 Definition add_term (t : term) (l : list term) : list term * event :=
   match set_find (pole t) l with
@@ -113,7 +113,7 @@ Fixpoint sorted_sep (l : list term) : Prop :=
   | _ => True
   end.
 
-(** * Evaluation: TermList::operator()  (TermList.h:68-77):  res = 0; for(it...) res += (*it)(args) *)
+(** * Evaluation: TermList::operator()  (TermList.h:68-77):  res = 0; for(it...) res += ( *it)(args) *)
 Section Eval.
 Variable K : Type.
 Variable k0 : K.
